@@ -181,8 +181,10 @@ func main() {
 		c.printFailKeys()
 		os.Exit(0)
 	}
-	if tier == "thorough" && onlyKey == "" {
-		selfValidate(c, *repo)
+	if onlyKey == "" {
+		// quick: positive controls for the rules whose expected count on /repo is zero;
+		// thorough: the whole self-validation suite
+		selfValidate(c, *repo, tier != "thorough")
 	}
 	os.Exit(c.finish(onlyKey))
 }
